@@ -30,7 +30,7 @@ REQUIRED_MONITORS = ["q_calc_positive_increasing", "linear", "gaussian_hankel_pa
                      "acceptance_masks_integral", "background_does_not_leak", "construction_order_independent"]
 REQUIRED_BUCKETS = {"quick": ["grid:linear", "grid:log", "n:1", "n:2..9", "n:10..200", "gaussians:1", "gaussians:>1",
                               "acceptance:open", "acceptance:cut", "via:Gxi", "via:DirectModel", "wavelength:short",
-                              "acceptance:on-data-tof", "acceptance:on-data-mono"]}
+                              "acceptance:on-data-tof", "acceptance:on-data-mono", "order:permuted"]}
 REQUIRED_BUCKETS["thorough"] = REQUIRED_BUCKETS["quick"]
 
 
@@ -105,6 +105,25 @@ def run_transform(case, rec):
                                    worst_over_tol=float(np.max(np.abs(got - exact))/(1e-3*max(scale, 1e-3*g0))),
                                    q_range=[qlo, float(q[-1])], acceptance_cut=qcut_open))
     rec.bucket("gaussians:1" if ng == 1 else "gaussians:>1", "acceptance:open")
+    # the same set of spin-echo lengths listed in another order (interleaved passes, revisited points): each value
+    # belongs to its own xi.  The first two and the last entry stay in place because the code derives its q range
+    # from them; the interior is permuted with cycles of every length.
+    if n >= 6:
+        perm = np.arange(n)
+        inner = perm[2:-1].copy()
+        rng.shuffle(inner)
+        if np.array_equal(inner, perm[2:-1]):
+            inner = np.roll(inner, 1)
+        perm[2:-1] = inner
+        Tp = sesans.SesansTransform(xi[perm], xi[perm], lamv[perm], zopen, 1e7)
+        samegrid = len(Tp.q_calc) == len(q) and bool(np.array_equal(np.asarray(Tp.q_calc), q))
+        gotp = Tp.apply(Iq) if samegrid else None
+        # (the matrix-vector product may sum in another order for another column layout: rounding only)
+        okp = samegrid and bool(np.all(np.abs(gotp - got[perm]) <= 1e-11*max(g0, float(np.max(np.abs(got))))))
+        rec.check("value_belongs_to_its_spin_echo_length", okp,
+                  None if okp else dict(ctx, permutation=perm[:12], same_q_grid=samegrid,
+                                        got=None if gotp is None else gotp[:8], expected=got[perm][:8]))
+        rec.bucket("order:permuted")
     # single point vs the same point inside the set, with a Gaussian whose width is comparable to xi_j
     j = int(rng.integers(n))
     sj = float(xi[j]/rng.uniform(0.7, 3.0))
